@@ -207,20 +207,28 @@ func (e *Engine) require(st *State, cond *Term, id, kind, where string) bool {
 	}
 	want := e.wantTerms(st)
 	v2, vals, why2 := e.solver.Check(st.pc, []*Term{neg}, want)
+	if v2 == Unsat {
+		// the full path condition is unsatisfiable: this path was only kept because an earlier
+		// feasibility check was inconclusive (accepted as feasible). It is not a real path.
+		e.res.Cuts["infeasible-path-dropped"]++
+		return false
+	}
 	if v2 != Sat {
 		// verdict was sat on the slice but no model of the full path condition could be produced
 		o.Unknown++
 		e.inconclusive(fmt.Sprintf("obligation %s: sat, but no model of the full path condition (%v %s)", id, v2, why2))
+		ok := e.feasible(st, cond)
 		st.assume(cond)
-		return e.feasible(st)
+		return ok
 	}
 	// sat: a violation, unless it lies entirely inside known-finding regions
 	e.reportViolation(st, o, neg, vals, where, "")
 	if cond.IsFalse() {
 		return false
 	}
+	ok := e.feasible(st, cond)
 	st.assume(cond)
-	return e.feasible(st)
+	return ok
 }
 
 func (e *Engine) reportViolation(st *State, o *ObligationResult, neg *Term, vals map[int]uint64, where, msg string) {
